@@ -109,7 +109,7 @@ let handle (w : string list) : string =
      | "pub" -> do_op (Pub (n 0, parse_ref (List.nth a 1)))
      | "note" ->
        let w = (match List.nth a 2 with "kp" -> WIKp | "read" -> WIRead | "recv" -> WIRecv | _ -> WOther) in
-       do_op (Note (n 0, parse_ref (List.nth a 1), w, z_of_string (List.nth a 3)))
+       do_op (Note (n 0, sid_user 0, parse_ref (List.nth a 1), w, z_of_string (List.nth a 3)))
      | "delmsg" -> do_op (DelMsg (n 0, parse_ref (List.nth a 1), flag 2))
      | "unload" -> do_op (Unload (parse_abs (List.nth a 0)))
      | "unload1" -> do_op (UnloadHub (parse_abs (List.nth a 0)))
